@@ -40,11 +40,17 @@ def arr(x):
     return num(x)
 
 
-def close(a, b, tol=TOL):
+def close(a, b, tol=TOL, scale=None):
+    """|a - b| <= tol * scale elementwise.  scale defaults to max(1, |a|, |b|); handlers of scale-sensitive clauses pass the magnitude of the
+    INPUT (e.g. max |J_ij|), so that a counterexample living at scale 1e-5 is not drowned by an absolute tolerance while cancellation noise
+    (which is relative to the input, not to the output) still is"""
     a, b = np.asarray(a, dtype=float), np.asarray(b, dtype=float)
     if a.shape != b.shape:
         return False
-    scale = max(1.0, float(np.max(np.abs(a))) if a.size else 1.0, float(np.max(np.abs(b))) if b.size else 1.0)
+    if scale is None:
+        scale = max(1.0, float(np.max(np.abs(a))) if a.size else 1.0, float(np.max(np.abs(b))) if b.size else 1.0)
+    else:
+        scale = max(float(scale), 1e-300)
     return bool(np.all(np.abs(a - b) <= tol * scale))
 
 
